@@ -118,7 +118,8 @@ def run(rep):
     rng = rep.rng
     thorough = rep.tier == "thorough"
     wd = rep.workdir
-    session_names = None if thorough else ["s1"]
+    from spec import prompts as spec
+    session_names = None
     additive = not thorough
     info_all = {}
 
@@ -144,6 +145,7 @@ def run(rep):
     plats = {}
     for p in PLATFORMS:
         try:
+            session_names = None if thorough else spec.SESSION_NAMES_QUICK.get(p, ["s1"])
             path, obs, info = gen_prompts.generate_platform(p, wd, session_names, additive, extra_tables=("s2",))
         except Exception as e:
             rep.broken.append("gen_prompts(%s): %s" % (p, e))
@@ -253,9 +255,9 @@ def run(rep):
 
     rep.coverage["generated"] = info_all
     rep.coverage["generated_from"] = common.source_hashes(SOURCES)
-    rep.coverage["grammar_tier"] = ("thorough: host names = every string of the host grammar up to the patterns' limit; all 7 session names"
+    rep.coverage["grammar_tier"] = ("thorough: host names = every string of the host grammar up to the patterns' limit; all 9 session names"
                                     if thorough else
-                                    "quick: NX-OS/EOS host names in additive form (hyphen-free up to the limit, or <= 24 characters with hyphens); session name s1 only")
+                                    "quick: NX-OS/EOS host names in additive form (hyphen-free up to the limit, or <= 24 characters with hyphens); session names s1 (NX-OS) / s1, abcde-x (EOS)")
     rep.rule = ("obligation = (platform, table variant, mode); fact = (grammar, level, expected) or (grammar, combined pattern), decided on the whole "
                 "regular language by a validated closed certificate; correspondence cases = (table, prompt string): members of each grammar "
                 "(boundary lengths favoured), one- and two-edit near-misses, carved-out strings; non-trivial = the prompt is matched by at least one level; "
@@ -553,7 +555,7 @@ MANIFEST = {
             "update_privilege_levels clears it and register_configuration_session calls it (facts read from the source by ast on every run); refuted without the clear. "
             "Known findings are carved out of the grammars by explicit regexes (NX-OS host names containing -tcl or config-s-, Junos user names ending in root in configuration "
             "mode, the word root in a non-root shell prompt) and replayed on every run. quick tier: NX-OS/EOS host names in additive form (hyphen-free up to the limit, or "
-            "<= 24 characters with hyphens), session name s1; thorough: the full host grammar and 7 session names.",
+            "<= 24 characters with hyphens), session names s1 / abcde-x; thorough: the full host grammar and 9 session names.",
     "note": "Trusted: Coq kernel + vm_compute; the prompt grammars and their carve-outs (hand-written specification, spec/prompts.py); gen/regex.py (CPython's own regex parser and "
             "per-byte class membership) and gen/gen_prompts.py; the derivative engine IS the regex semantics of the theorems and is confronted with CPython re on every run "
             "(regex-conformance on all level and combined patterns); Prompt.classify is confronted with the real _determine_current_priv of sync and asyncio drivers on grammar "
